@@ -26,30 +26,32 @@ type RunResult struct {
 }
 
 type WorkerStats struct {
-	Check      string         `json:"check"`
-	Rule       string         `json:"rule"`
-	Level      string         `json:"level"`
-	Engine     string         `json:"engine"`
-	Runs       int            `json:"runs"`
-	Nontrivial int            `json:"nontrivial"`
-	Scheds     map[string]int `json:"-"`
-	SchedList  []string       `json:"scheds"` // distinct schedule hashes of non-trivial runs
-	Steps      int            `json:"steps"`
-	SimTimeMS  int64          `json:"sim_time_ms"`
-	Faults     map[string]int `json:"faults"`
-	Probes     map[string]int `json:"probes"`
-	Samples    []string       `json:"samples"`
-	Known      map[string]int `json:"known"` // known-finding signature -> hits
-	Failed     bool           `json:"failed"`
-	Failure    *FailureRec    `json:"failure,omitempty"`
-	WallS      float64        `json:"wall_s"`
-	Digests    []string       `json:"digests,omitempty"`
-	Stuck      int            `json:"stuck"`
-	Bytes      int            `json:"bytes_delivered"`
-	EnumCount  int            `json:"enum_count"`
-	EnumParams map[string]int `json:"enum_params,omitempty"`
-	EnumRan    int            `json:"enum_ran"`
-	EnumRule   string         `json:"enum_rule,omitempty"`
+	Check        string         `json:"check"`
+	Rule         string         `json:"rule"`
+	Level        string         `json:"level"`
+	Engine       string         `json:"engine"`
+	Runs         int            `json:"runs"`
+	Nontrivial   int            `json:"nontrivial"`
+	Scheds       map[string]int `json:"-"`
+	SchedList    []string       `json:"scheds"` // distinct schedule hashes of non-trivial runs
+	Steps        int            `json:"steps"`
+	SimTimeMS    int64          `json:"sim_time_ms"`
+	Faults       map[string]int `json:"faults"`
+	Probes       map[string]int `json:"probes"`
+	Samples      []string       `json:"samples"`
+	Known        map[string]int `json:"known"` // known-finding signature -> hits
+	Failed       bool           `json:"failed"`
+	Failure      *FailureRec    `json:"failure,omitempty"`
+	WallS        float64        `json:"wall_s"`
+	Digests      []string       `json:"digests,omitempty"`
+	Stuck        int            `json:"stuck"`
+	Bytes        int            `json:"bytes_delivered"`
+	EnumCount    int            `json:"enum_count"`
+	EnumParams   map[string]int `json:"enum_params,omitempty"`
+	EnumRan      int            `json:"enum_ran"`
+	EnumRule     string         `json:"enum_rule,omitempty"`
+	FailIter     int            `json:"fail_iter"` // rapid iteration (0-based) of the first failing run
+	FirstFailure *FailureRec    `json:"first_failure,omitempty"`
 }
 
 type FailureRec struct {
@@ -302,18 +304,26 @@ func TestWorker(t *testing.T) {
 		if em == "count" {
 			return
 		}
-		// "shard:nshards:stride" or "index:i"
-		var lo, step, stride int
-		if n, _ := fmt.Sscanf(em, "index:%d", &lo); n == 1 {
-			step = st.EnumCount + 1
-			stride = 1
+		// "shard:nshards:stride" or "index:i".  With a stride > 1 every stride-th index
+		// is run plus the last 64 (small special cases sit at the end of the space).
+		var indexes []int
+		var one int
+		if n, _ := fmt.Sscanf(em, "index:%d", &one); n == 1 {
+			indexes = []int{one}
 		} else {
-			var shard, nsh int
+			var shard, nsh, stride int
 			fmt.Sscanf(em, "%d:%d:%d", &shard, &nsh, &stride)
-			lo = shard * stride
-			step = nsh * stride
+			k := 0
+			for i := 0; i < st.EnumCount; i++ {
+				if i%stride == 0 || i >= st.EnumCount-64 {
+					if k%nsh == shard {
+						indexes = append(indexes, i)
+					}
+					k++
+				}
+			}
 		}
-		for i := lo; i < st.EnumCount; i += step {
+		for _, i := range indexes {
 			if announce != "" {
 				os.WriteFile(announce, []byte(fmt.Sprintf("enum %d", i)), 0o644)
 			}
@@ -350,6 +360,10 @@ func TestWorker(t *testing.T) {
 			account(c, res, w)
 		}
 		if f := judge(c, res, w); f != nil {
+			if !st.Failed {
+				st.FailIter = iter - 1
+				st.FirstFailure = f
+			}
 			st.Failed = true
 			st.Failure = f
 			rt.Fatalf("VIOLATION %s class=%s: %s", id, f.Class, f.Msg)
